@@ -26,7 +26,8 @@ RULE = ("E2: breadth-first search over operation histories of real Bec2File obje
         "consumes exactly one 16-byte draw which becomes the key; every packed ECC block consumes fresh entropy and its ephemeral point is new "
         "in the history. E1 ('splice', ...): every ordered pair of block kinds x key pairs K1 != K2 (4 key classes, plus keys differing in each single bit) spliced into one header (body MACed with "
         "either): rejected with both decryptors, accepted with one decryptor iff the body matches that block's key; ('multisplice', ...) headers of 2..3 blocks INCLUDING several blocks of the same tag (two ECC blocks for different selectors, two customer-key blocks, ...) x every assignment of two keys: accepted exactly when all blocks agree."
-        " Spliced headers are read with and without MAC checking (agreement of the blocks does not depend on it); the caller's encryptor lists start with the selector-2 entry so that selector 0 is never matched by position.")
+        " Spliced headers are read with and without MAC checking (agreement of the blocks does not depend on it); the caller's encryptor lists start with the selector-2 entry so that selector 0 is never matched by position."
+        ' TLA+ cross-check: models/bec2header.tla describes the header reader as a state machine (blocks in file order, decrypt where a decryptor exists, agreed key, mismatch / no key / bad MAC / accepted); TLC enumerates EVERY behaviour (all headers of up to 2 blocks, thorough 3, over {cust, ecc, upd} x {k1, k2}, every decryptor subset, both body keys) and each one is replayed on the real reader with reference-built headers and decryptor subclasses that record their calls: outcome, session key and the order of decrypt calls must conform.')
 ASSUMPTIONS = [
     "canonical-state merging assumes operations depend only on the hashed fields plus the randomness stream; hidden library-global state is still "
     "caught because every check is phrased per transition (draws consumed by this operation, points new in this history)",
@@ -393,6 +394,8 @@ def run_case(ctx, case):
     consts(ctx)
     if case[0] == "multisplice":
         return run_multisplice(ctx, case)
+    if case[0] == "model":
+        return run_model(ctx, case)
     if case[0] == "hist":
         # replay of a BFS history
         st = St()
@@ -450,6 +453,113 @@ def run_case(ctx, case):
     return o
 
 
+# ---- TLA+ model of the header reader: every behaviour TLC finds is replayed on the implementation -----------------------------
+def tlc_behaviours(maxlen):
+    """Run TLC on models/bec2header.tla; -> (list of behaviours, distinct states) or (None, reason).
+    A behaviour = (header ((kind, key), ...), decryptor kinds, body key, final status, agreed key, opened positions)."""
+    import os
+    import re
+    import shutil
+    import subprocess
+    import tempfile
+    from ..core import VERIF_DIR
+    if not shutil.which("tlc"):
+        return None, "tlc not installed"
+    d = tempfile.mkdtemp(prefix="vf-tlc-")
+    try:
+        shutil.copy(os.path.join(VERIF_DIR, "models", "bec2header.tla"), d)
+        with open(os.path.join(d, "bec2cfg.tla"), "w") as f:
+            f.write("---- MODULE bec2cfg ----\nEXTENDS bec2header\n====\n")
+        with open(os.path.join(d, "bec2cfg.cfg"), "w") as f:
+            f.write('CONSTANTS\n  Kinds = {"cust", "ecc", "upd"}\n  Keys = {"k1", "k2"}\n  MaxLen = %d\n  NoKey = "none"\n'
+                    'INIT Init\nNEXT Next\nINVARIANT AcceptedMeansAgreement\nINVARIANT OpenedInOrder\n' % maxlen)
+        p = subprocess.run(["tlc", "-workers", "1", "-noGenerateSpecTE", "-metadir", os.path.join(d, "meta"),
+                            "-dump", "dot,actionlabels", os.path.join(d, "g.dot"), "bec2cfg"],
+                           cwd=d, capture_output=True, text=True, timeout=900,
+                           env=dict(os.environ, JAVA_TOOL_OPTIONS="-Djava.io.tmpdir=" + d))
+        out = p.stdout + p.stderr
+        if "Model checking completed. No error has been found." not in out:
+            return None, "TLC did not complete cleanly: " + out[-400:]
+        m = re.search(r"(\d+) distinct states found", out)
+        with open(os.path.join(d, "g.dot")) as f:
+            text = f.read()
+    finally:
+        shutil.rmtree(d, True)
+    nodes, succ = {}, {}
+    for mm in re.finditer(r'^(-?\d+) \[label="(.*?)"(?:,style = filled)?\];?[ \t]*$', text, re.M):
+        lab = mm.group(2).replace('\\"', '"')
+        g = lambda name: re.search(r"%s = (.*?)(?:\\n|$)" % name, lab).group(1)
+        hdr = tuple(re.findall(r'<<"(\w+)", "(\w+)">>', g("hdr")))
+        nodes[mm.group(1)] = (hdr, tuple(sorted(re.findall(r'"(\w+)"', g("decs")))), g("body").strip('"'), int(g("pos")),
+                              g("common").strip('"'), tuple(int(x) for x in re.findall(r"\d+", g("opened"))), g("status").strip('"'))
+    for mm in re.finditer(r'^(-?\d+) -> (-?\d+) \[label="(\w+)"', text, re.M):
+        if mm.group(3) != "Done" and mm.group(1) != mm.group(2):
+            succ.setdefault(mm.group(1), []).append(mm.group(2))
+    out_b = []
+    for nid, (hdr, decs, body, pos, common, opened, status) in nodes.items():
+        if pos == 1 and status == "reading" and not opened and common == "none":
+            cur, steps = nid, 0
+            while cur in succ:
+                if len(succ[cur]) != 1:
+                    return None, "model is not deterministic at a state (%d successors)" % len(succ[cur])
+                cur = succ[cur][0]
+                steps += 1
+            f = nodes[cur]
+            if f[6] == "reading":
+                return None, "a behaviour ends in a non-final state"
+            out_b.append((hdr, decs, body, f[6], f[4], f[5], steps))
+    out_b.sort()
+    return out_b, int(m.group(1)) if m else len(nodes)
+
+
+def run_model(ctx, case):
+    """replay one TLC behaviour: same header / decryptors / body on the real reader, with decryptors that record their calls"""
+    _, hdr, decs, body, status, common, opened, steps = case
+    keys = dict(zip(("k1", "k2"), splice_keys(ctx)[:2]))
+    calls = []
+
+    class RecCust(SoftwareCustKeyEncryptor):
+        def decrypt(self, data):
+            calls.append("cust")
+            return SoftwareCustKeyEncryptor.decrypt(self, data)
+
+    class RecEcc(EccDecryptor):
+        def decrypt(self, data):
+            calls.append("ecc")
+            return EccDecryptor.decrypt(self, data)
+
+    class RecUpd(ConfigSecurityCodeEncryptor):
+        def decrypt(self, data):
+            calls.append("upd")
+            return ConfigSecurityCodeEncryptor.decrypt(self, data)
+    mk = {"cust": lambda: RecCust(CKEY), "ecc": lambda: RecEcc(0, FX.priv_key(SCAL[0])), "upd": lambda: RecUpd(CODE)}
+    blocks = [wrap2("ecc0" if kind == "ecc" else kind, keys[k], i) for i, (kind, k) in enumerate(hdr)]
+    comps = FX.model_components(ctx, "one")
+    h = AB.header(blocks)
+    binary = h + L.serialise(comps, len(h), keys[body])
+    o = Outcome("model-" + status, True)
+    try:
+        r = Bec2File.read_file(io.StringIO(L.render_text([], binary)), [mk[k]() for k in decs])
+        accepted = True
+    except Exception as e:
+        r = e
+        accepted = False
+    what = "header %r, decryptors %r, body under %s" % (hdr, decs, body)
+    if accepted != (status == "accepted"):
+        o.cls = "model-disagrees"
+        return o.viol("model|outcome|%s" % status, "%s: the model ends in '%s' but the reader %s (%r)" % (
+            what, status, "accepted the file" if accepted else "rejected it", r if not accepted else ""))
+    if accepted and r.session_key != keys[common]:
+        return o.viol("model|key", "%s: accepted with another session key than the model's agreed key %s" % (what, common))
+    # the decrypt calls the reader made: in file order, only blocks it has a decryptor for, and at least up to the model's last step
+    can = [kind for kind, _ in hdr if kind in decs]
+    want = [hdr[i - 1][0] for i in opened]
+    if calls[:len(want)] != want or calls != can[:len(calls)]:
+        o.viol("model|decrypt-calls", "%s: decrypt calls %r, the model opens %r (blocks with a decryptor, in file order: %r)" % (what, calls, want, can))
+    o.extra = {"model_steps_replayed": steps}
+    return o
+
+
 def main(ctx):
     consts(ctx)
     depth = 7 if ctx.quick else 9
@@ -467,6 +577,17 @@ def main(ctx):
     agg2 = explore(mod, ctx, list(splice_cases(ctx)))
     ctx.extra_cov["splice_cases"] = agg2.evaluations
     merge(agg, agg2)
+    # TLA+ model of the header reader: TLC enumerates every behaviour (header x decryptor set x body key); each is replayed
+    maxlen = 2 if ctx.quick else 3
+    beh, info2 = tlc_behaviours(maxlen)
+    if beh is None:
+        ctx.notes.append("TLC cross-check of the header reader skipped: %s" % info2)
+    else:
+        agg3 = explore(mod, ctx, [("model",) + b for b in beh])
+        ctx.extra_cov.update({"tlc_model": "models/bec2header.tla (MaxLen=%d)" % maxlen, "tlc_states": info2, "model_behaviours_replayed": agg3.evaluations,
+                              "model_steps_replayed": agg3.extra.get("model_steps_replayed", 0)})
+        ctx.extra_cov["traces_validated_against_impl"] = info["transitions"] + agg3.evaluations
+        merge(agg, agg3)
     caps = None
     if info["frontier_left"]:
         caps = ["depth bound %d reached with %d unexpanded states (all states up to that depth fully expanded)" % (depth, info["frontier_left"])]
